@@ -38,7 +38,7 @@ Definition lua_document (s : str) : str :=
   [114; 101; 116; 117; 114; 110; 32] ++ lua_quote s ++ [59; 10].
 
 (* needsQuoting: a key may be written bare only if it is not a keyword and
-   matches [A-Za-z_][A-Za-z0-9_]* (the empty string passes the loop) *)
+   matches [A-Za-z_][A-Za-z0-9_]* (the empty string is quoted: repaired in /repo) *)
 Definition lua_keywords : list str :=
   List.map str_of_string
     ["do"; "and"; "else"; "break"; "if"; "end"; "goto"; "false"; "in"; "for"; "then"; "local"; "or"; "nil"; "true"; "until";
@@ -51,7 +51,7 @@ Definition lua_alnum_us (c : N) : bool := lua_alpha_us c || ((48 <=? c) && (c <=
 Definition lua_needs_quoting (s : str) : bool :=
   existsb (str_eqb s) lua_keywords ||
   match s with
-  | [] => false
+  | [] => true
   | c :: r => negb (lua_alpha_us c) || negb (forallb lua_alnum_us r)
   end.
 
